@@ -10,7 +10,6 @@ import (
 	"crypto/fips140"
 	"crypto/rsa"
 	"crypto/tls"
-	"net"
 	"slices"
 	"time"
 
@@ -83,7 +82,7 @@ func newConnConfigValues(config *dtlsConfig) (connConfigValues, error) {
 		signatureSchemes:            signatureSchemes,
 		certificateSignatureSchemes: certSignatureSchemes,
 		ellipticCurves:              effectiveEllipticCurves(config.EllipticCurves),
-		serverName:                  effectiveServerName(config.ServerName),
+		serverName:                  config.ServerName,
 	}, nil
 }
 
@@ -148,16 +147,6 @@ func effectiveFlightInterval(flightInterval time.Duration) time.Duration {
 	}
 
 	return flightInterval
-}
-
-func effectiveServerName(serverName string) string {
-	// Do not allow the use of an IP address literal as an SNI value.
-	// See RFC 6066, Section 3.
-	if net.ParseIP(serverName) != nil {
-		return ""
-	}
-
-	return serverName
 }
 
 func effectiveEllipticCurves(curves []elliptic.Curve) []elliptic.Curve {
